@@ -40,10 +40,17 @@ separated).  `dispatch_stream` reads the LIVE plum tables of `pinv` and `svd` (s
 signature the model does not know (MODELLED) is a broken correspondence, and the catalogue instances that match its types
 AND its condition (evaluated by calling the live condition) are searched for a concrete failing input.
 
-LOBPCG (round 2: no longer "smoke").  cola's `lobpcg` computes in single precision (float32, complex64 for complex operators;
+LOBPCG.  cola's `lobpcg` computes in single precision (float32, complex64 for complex operators;
 lobpcg.py casts every product): the claim checked is the property at the SINGLE-precision tolerances (x SINGLE_FACTOR), for real
 and complex operators, which in {'LM', 'SM'} (the rule passes largest = (which == 'LM')), k < n, through the full three-way
-comparison.  k >= n is the recorded finding `lobpcg-k-ge-n` (known_findings.json; Model/Svd.lean: lobpcgClauses).
+comparison.  k >= n is the recorded finding `lobpcg-k-ge-n` (known_findings.json; Model/Svd.lean: lobpcgClauses): excused per case
+only when cols <= k AND the failure is exactly "n - 1 triplets returned"; the returned n - 1 triplets must satisfy the rest.
+
+Contracts observed on the REAL library values, per case (round 3): the eigenvector operator the eigensolver returned is
+well-formed and of the shape Product(Orthonormal(Dense Q), Dense Y) / Dense (`w_good`, `w_shape`; C16_lanczos_W_good derives
+Op.Good from the shape), the eigenvalues it returned are real and ascending (`eigs_ascending`; Svd.EigsSorted), the singular
+values np.linalg.svd returned are real, non-negative and descending (`lapack_descending`; Svd.LapackSorted).  The exact inputs
+of the Lean witness theorems (Lemmas/SvdWitness.lean) run through the same comparison (`witness_cases`).
 
 Partial Lanczos runs (max_iters < Gram size) return Ritz triplets, not singular triplets; what the property claims for them
 and what is checked (at the same tolerances): orthonormal U and V, Sigma diagonal real non-negative, the residual identity
@@ -51,8 +58,8 @@ U Sigma V^H = A V V^H (tall / square) resp. U U^H A (wide), and sigma_min(A) <= 
 Larger sizes (up to 60 x 40; thorough 120 x 80) run on the float side only (real code + oracle, no exact model run).
 
 Reading of the property (documented, see Properties/C16.lean): DenseSVD ignores k and which and always returns all
-min(m, n) triplets (then U Sigma V^H = A is required); "best rank-k approximation" is the truncated SVD on the selected
-singular values (Eckart-Young itself is not re-proved); full rank is a hypothesis of the pinv statement (zeros on a
+min(m, n) triplets (then U Sigma V^H = A is required); "best rank-k approximation" is the truncated SVD on the k largest /
+smallest singular values the eigensolver holds (C16_svd_krylov_tall_sorted; Eckart-Young itself is not re-proved); full rank is a hypothesis of the pinv statement (zeros on a
 Diagonal / ScalarMul are outside: the code returns inf there).
 """
 import collections
@@ -74,16 +81,19 @@ warnings.simplefilter("ignore")
 MODULE = "ColaVerif.Properties.C16"
 DRIVER = "DriverC16.lean"
 
-# --------------------------------------------------------------------------------------------
-# PROVISIONAL: genuine defects found by this check and not (yet) listed in /verif/known_findings.json.
-# Treated as known (KNOWN-FINDING line, exit 0) until the maintainer decides: repair in /repo or record.
-# (both defects this check found - svd(Diagonal) returning negative / complex "singular values" and pinv(A, CG()) raising
-#  TypeError for complex operators - are repaired in /repo: commits "fix: svd of a Diagonal operator returns non-negative
-#  singular values" and "fix: pinv(A, CG()) works for complex operators"; the model follows the repaired code.)
-# (round 2: svd through LOBPCG lost the imaginary part of complex operators and returned the smallest of the n-1 LARGEST singular values
-#  for 'SM' - both repaired in /repo 7c689b5; `lobpcg-k-ge-n` is RECORDED in /verif/known_findings.json and matched through common.known_clauses.)
-PROVISIONAL_KNOWN = {}
-# --------------------------------------------------------------------------------------------
+# Recorded findings are read from /verif/known_findings.json through common.known_clauses (no provisional list).
+# A property failure is excused ONLY if the failure string is attributed to a recorded clause (prefix "[clause] ") by a
+# decidable predicate on the input evaluated in svd_oracle, AND the model lists that clause for the same case
+# (Svd.lobpcgClauses: cols <= k, theorem C16_lobpcg_clauses).  Every other failure of the same case is a violation.
+KGE = "lobpcg-k-ge-n"
+
+
+def attributed(fail):
+    """the recorded clause a failure string of svd_oracle is attributed to, or None"""
+    if fail.startswith("[") and "] " in fail:
+        return fail[1:fail.index("] ")]
+    return None
+
 
 NPROC = 6        # Lean driver processes (start-up dominated; the machine is shared)
 NPROC_PLAN = 2
@@ -721,6 +731,11 @@ def svd_oracle(case, rule, Ad, U, S, V):
     f = SINGLE_FACTOR if single else 1.0
     partial = is_partial(case, rule, m, n)
     kexp = case["k"] if krylov else r
+    if rule == "lobpcg" and n <= case["k"] and Ud.shape == (m, n - 1) and Vd.shape == (n, n - 1) and Sd.shape == (n - 1, n - 1):
+        # recorded finding lobpcg-k-ge-n, attributed by the predicate cols <= k on THIS case and by the exact failure class it
+        # predicts (n - 1 triplets come back); everything else is still required of the n - 1 returned triplets
+        fails.append(f"[{KGE}] {n - 1} singular triplets returned for k = {case['k']} >= n = {n}")
+        kexp = n - 1
     if Ud.shape != (m, kexp) or Vd.shape != (n, kexp) or Sd.shape != (kexp, kexp):
         fails.append(f"shapes U{Ud.shape} S{Sd.shape} V{Vd.shape}, expected ({m},{kexp}) ({kexp},{kexp}) ({n},{kexp})")
         return fails
@@ -794,8 +809,6 @@ class Engine:
     def __init__(self, ctx):
         self.ctx = ctx
         self.known = {k: v["what"] for k, v in common.known_clauses(ctx.prop).items()}
-        for k, v in PROVISIONAL_KNOWN.items():
-            self.known.setdefault(k, v)
         self.stats = collections.Counter()
         self.dist = collections.Counter()
         self.distinct = set()
@@ -828,9 +841,11 @@ class Engine:
         if not tie_problems and not spec_fails:
             return "ok"
         if not tie_problems and spec_fails:
-            unknown = [c for c in clauses if c not in self.known]
-            if clauses and not unknown:
-                for c in clauses:
+            # exact excuse: EVERY failure is attributed (by svd_oracle's predicate on the input) to a clause that the model lists
+            # for this case and that is recorded; one unattributed failure makes the case a violation
+            att = [attributed(f) for f in spec_fails]
+            if all(a is not None and a in clauses and a in self.known for a in att):
+                for c in sorted(set(att)):
                     common.known_finding(ctx, c, self.known[c])
                 return "known"
             self.violate({"case": strip(case), "real": real_summary, "spec_failures": spec_fails, "clauses": clauses,
@@ -1066,6 +1081,20 @@ class Engine:
                 if not ans.get("back_good", False):
                     tie.append("back_good: the lazy product the rule densifies is not well-formed in the model")
                 vals, Q, Y = rec["W"]
+                # ---- the eigensolver's output the rule was handed (observations on the REAL values, decided by the driver exactly):
+                # W_good (wf, no repeated slice index), the shape Svd.EigShape (from which C16_lanczos_W_good derives ALL of Op.Good,
+                # HermOK included), and the ORDER conjunct of the strengthened contract Svd.EigsSorted (real, ascending)
+                for key, what in (("w_good", "the eigenvector operator the eigensolver returned is not well-formed in the model (W_good)"),
+                                  ("w_shape", "the eigenvector operator is not of the shape Product(Orthonormal(Dense), Dense) / Dense (EigShape)"),
+                                  ("eigs_ascending", "the eigenvalues the real eigensolver returned are not real and ascending (EigsSorted.ascending)")):
+                    if ans.get(key) is not True:
+                        tie.append(f"contract:{key}: {what}")
+                    else:
+                        self.dist["contract-observed:" + key] += 1
+                vr = np.asarray(vals)
+                asc_py = bool(np.all(np.imag(vr) == 0) and np.all(np.diff(np.real(vr)) >= 0))
+                if asc_py != ans.get("eigs_ascending"):
+                    tie.append(f"contract:eigs_ascending: driver {ans.get('eigs_ascending')} python {asc_py}")
                 sl = lib().get_slice(c["k"], c["which"])
                 if list(range(len(vals)))[sl] != ans["pos"]:
                     tie.append(f"pos: model {ans['pos']} python {list(range(len(vals)))[sl]}")
@@ -1079,10 +1108,21 @@ class Engine:
                         same = np.array_equal(np.asarray(Wr.Ms[0].to_dense()), Q) and np.array_equal(np.asarray(Wr.Ms[1].to_dense()), Y)
                     if not same:
                         tie.append("gram: the eigenvector operator inside the real output is not the eigensolver's output on the Gram operator the model names")
+                    want_shape = ["dense", []] if rule == "lobpcg" else \
+                        ["prod", [], ["dense", ["Unitary"] if Q.shape[0] == Q.shape[1] else ["Stiefel"]], ["dense", []]]
+                    if skel16(Wr) != want_shape:
+                        tie.append(f"contract:w_shape: the REAL eigenvector operator has the kind tree {skel16(Wr)}, expected {want_shape}")
                 except Exception:  # noqa: BLE001
                     tie.append("gram: sliced factor of the real output has no eigenvector operator")
             if rule == "dense":
                 s0 = rec["s0"]          # the values LAPACK returned to the real code (same call, full_matrices=True)
+                # the ORDER conjunct of the strengthened LAPACK contract Svd.LapackSorted on the REAL values: real, >= 0, descending
+                desc_py = bool(np.all(np.isreal(s0)) and np.all(np.real(s0) >= 0) and np.all(np.diff(np.real(s0)) <= 0))
+                if ans.get("lapack_descending") is not True or not desc_py:
+                    tie.append(f"contract:lapack_descending: the singular values np.linalg.svd returned are not real, non-negative and descending "
+                               f"(driver {ans.get('lapack_descending')}, python {desc_py})")
+                else:
+                    self.dist["contract-observed:lapack_descending"] += 1
                 if rec.get("sigma_ties"):
                     # np.argsort is not stable: on exact ties only the sorted VALUES are specified (compared exactly through S above)
                     self.dist["dense-svd:exactly-tied-singular-values"] += 1
@@ -1367,10 +1407,17 @@ def run(ctx):
         if missing:
             common.violation(ctx, {"broken": "kind catalogue: no well-conditioned instance could be generated", "kinds": missing}, no_input=True)
         extra["dispatch"] = dispatch_stream(ctx, eng, rng, cat)
-        eng.eval_svd(svd_structural_cases(ctx, rng) + svd_cases(ctx, rng, g) + kind_svd_cases(ctx, rng, cat) + lobpcg_cases(ctx, rng, g))
-        eng.eval_pinv(pinv_cases(ctx, rng, g) + kind_pinv_cases(ctx, rng, cat))
+        wsv, wpv = witness_cases()
+        eng.eval_svd(wsv + svd_structural_cases(ctx, rng) + svd_cases(ctx, rng, g) + kind_svd_cases(ctx, rng, cat) + lobpcg_cases(ctx, rng, g))
+        eng.eval_pinv(wpv + pinv_cases(ctx, rng, g) + kind_pinv_cases(ctx, rng, cat))
         eval_float_only(eng, large_cases(ctx, rng))
         extra["auto_threshold"] = auto_threshold_stream(ctx, eng)
+        # exceptions are observations: a generated case that was not evaluated (operand not buildable, eigensolver parameters not
+        # obtainable, driver error) is a generator / model defect, never "n/a"
+        not_eval = eng.stats["skipped"] + eng.stats["driver-error"]
+        if not_eval:
+            common.violation(ctx, {"broken": f"{not_eval} generated cases were not evaluated (skipped {eng.stats['skipped']}, "
+                                             f"driver-error {eng.stats['driver-error']})", "notes": list(ctx.notes)[-6:]}, no_input=True)
     if gate_err is not None and not ctx.violations:
         common.violation(ctx, {"broken": f"Lean gate of {MODULE}", "detail": gate_err[-3000:]}, no_input=True)
     cov = eng.coverage()
@@ -1387,24 +1434,76 @@ def run(ctx):
                    "JSON of (function, operand, k, which, algorithm, rhs seed); non-trivial = not a structural-rule operand")
     cov["trusted_base_extra"] = [
         "lean/DriverC16.lean (JSON transport, the table instance of get_precision, sqrt as a lookup table of the values NumPy computed)",
-        "LAPACK svd / lstsq, lanczos_eigs (C14), lobpcg, the CG solver (C12) are parameters of the model; their contracts are hypotheses of the "
-        "C16 theorems (CONTRACTS, labelled in Properties/C16.lean: lapack_contract, eigs_contract / ritz_contract, lstsq_contract, the CG contract)",
+        "LAPACK svd / lstsq, lanczos_eigs, lobpcg, the CG solver are parameters of the model; their contracts are hypotheses of the C16 theorems "
+        "(named in `assumptions`; Lean witnesses in coverage.contracts.lean_witnesses)",
     ]
+    cov["contracts"] = {
+        "checked_per_case_on_real_values": {
+            "w_good": "Krylov rules: wf && !dupSlice of the eigenvector operator the real eigensolver returned (driver, exact)",
+            "w_shape": "Krylov rules: that operator has the shape Svd.EigShape - Product(Orthonormal(Dense Q), Dense Y) for lanczos_eigs, Dense for "
+                       "lobpcg - in the model AND as kind tree of the real object; C16_lanczos_W_good derives all of Op.Good (HermOK included) from it",
+            "eigs_ascending": "Krylov rules: the eigenvalues lanczos_eigs / lobpcg returned are real and ascending (order conjunct of Svd.EigsSorted; "
+                              "driver exact + NumPy)",
+            "lapack_descending": "DenseSVD: the singular values np.linalg.svd returned are real, >= 0, descending (order conjunct of Svd.LapackSorted)",
+        },
+        "observed_true": {k.split(":", 1)[1]: v for k, v in eng.dist.items() if k.startswith("contract-observed:")},
+        "lean_witnesses": {
+            "lapack_contract / LapackSorted / lt_contract": "C16_svd_dense_witness (3 x 2, [[-12, 9], [12, 16], [0, 0]])",
+            "eigs_contract, sqrt_contract, inv_contract": "C16_svd_krylov_witness (k = n = 2), C16_svd_krylov_sorted_witness (k = 1 < n = 2)",
+            "EigsSorted, EigShape (W = Product(Q, Y))": "C16_svd_krylov_sorted_witness",
+            "ritz_contract": "C16_krylov_ritz_witness (one Ritz vector of a 2 x 2 Gram matrix, not an eigenvector)",
+            "lstsq_contract": "C16_pinv_lstsq_witness (lstsq = multiplication by the exact pseudo-inverse of the 3 x 2 operand)",
+            "A_good, A_real": "in every witness above (Dense operands)",
+            "without a Lean witness": "abs_contract (C16_svd_diagonal), the CG antecedents hsolve / hkrylov (C16_pinv_cg_value, C16_pinv_cg_full_rank), "
+                                      "the wide-branch eigs_contract / ritz_contract, complex carriers",
+        },
+    }
     common.write_evidence(ctx, gate, cov, assumptions=[
         "theorems are about exact real/complex arithmetic; rounding is outside the model (tolerances in the module docstring)",
-        "'best rank-k approximation' is read as the truncated SVD on the selected singular values; Eckart-Young is not re-proved",
+        "'best rank-k approximation' is read as the truncated SVD on the k largest ('LM') / smallest ('SM') singular values the eigensolver holds "
+        "(C16_svd_krylov_tall_sorted / _wide_sorted: the order is part of the contract EigsSorted); Eckart-Young is not re-proved",
         "DenseSVD returns all min(m, n) triplets whatever k and which are; the property is read as U Sigma V^H = A there",
-        "full rank is a hypothesis of the pinv statement: zero entries of a Diagonal / ScalarMul (where the code returns inf) are outside",
-        "CONTRACT (not proved): LAPACK gesdd returns a thin SVD (lapack_contract); lanczos_eigs / lobpcg return orthonormal (Ritz) eigenpairs "
-        "of the Gram operator (eigs_contract, ritz_contract; C14 proves the exact-arithmetic Lanczos relation); np.linalg.lstsq returns the "
-        "minimum-norm least-squares solution (lstsq_contract); CG returns a Krylov-space solution of the normal equations (C12)",
+        "full rank is a hypothesis of the pinv statement (full_rank of C16_pinv_structural): zero entries of a Diagonal / ScalarMul (where the code "
+        "returns inf) are outside",
+        "PARAMETER CONTRACTS (hypotheses of the theorems, NOT proved; the real libraries meet them only to the tolerances of the oracle): "
+        "lapack_contract / LapackSorted (np.linalg.svd: thin SVD, real non-negative descending values); eigs_contract / EigsSorted (lanczos_eigs, "
+        "lobpcg: orthonormal eigenpairs of the Gram matrix, positive ascending eigenvalues) and ritz_contract (partial Lanczos runs: Galerkin "
+        "condition); lstsq_contract (np.linalg.lstsq: minimum-norm least-squares solution); sqrt_contract, inv_contract, abs_contract, lt_contract "
+        "(scalar primitives sqrt, reciprocal, modulus, < on reals); the CG antecedents hsolve / hkrylov of C16_pinv_cg_value / _full_rank (CG returns a "
+        "Krylov-space solution of the normal equations). No Svd file imports a C12 / C14 module: none of these is derived from those families",
+        "OPERAND HYPOTHESES: A_good (= Op.Good: wf, no repeated slice index, HermOK; C01 / C05) and A_real (real dtype => real payload) are "
+        "hypotheses about the operand, guaranteed by the generator and re-checked per case (wf, td_eq_den, den vs to_dense); W_good is no longer "
+        "assumed for the real eigensolver outputs: C16_lanczos_W_good proves it from the shape EigShape, which the driver decides per case (w_shape) "
+        "together with wf && !dupSlice (w_good)",
+        "LEAN WITNESSES exist for lapack_contract, LapackSorted, lt_contract, eigs_contract, EigsSorted, EigShape, ritz_contract, lstsq_contract, "
+        "sqrt_contract, inv_contract, A_good, A_real (coverage.contracts.lean_witnesses); NOT witnessed: abs_contract, the CG antecedents, the wide "
+        "branch, complex carriers",
+        "the ORDER of the values the real libraries return is observed on every case (eigs_ascending, lapack_descending); a disorder is reported as "
+        "a broken contract",
         "LOBPCG computes in single precision (lobpcg.py: float32 / complex64): its cases are checked at the single-precision tolerances (x 1e4), "
-        "real and complex operators, which in {LM, SM}, k < n; k >= n is the recorded finding lobpcg-k-ge-n (known_findings.json)",
+        "real and complex operators, which in {LM, SM}, k < n; k >= n is the recorded finding lobpcg-k-ge-n (known_findings.json), excused per case "
+        "only when cols <= k (model: lobpcgClauses; oracle: the same predicate) AND the failure is exactly 'n - 1 triplets returned'; the n - 1 "
+        "returned triplets must still satisfy everything else",
         "partial Lanczos runs (max_iters < Gram size) return Ritz triplets: checked are orthonormal factors, Sigma >= 0, the residual identity "
         "U Sigma V^H = A V V^H (resp. U U^H A) and the Ritz bounds, not the truncated SVD",
         "pinv through CG computes (cg(A^H A, A^H b) + cons * A^H b) with cons = get_precision(dtype) * max(m, n): the property holds up to "
         "cons * |A^H b| (float64: <= 5e-13 |x| on the generated inputs), checked with TOL_CG = 1e-8",
     ])
+
+
+def witness_cases():
+    """the exact inputs of the Lean witness theorems (Lemmas/SvdWitness.lean: C16_svd_dense_witness, C16_svd_krylov_witness,
+    C16_svd_krylov_sorted_witness, C16_krylov_ritz_witness, C16_pinv_lstsq_witness) through the same three-way comparison"""
+    A2 = ["dense", "f64", 2, 2, [[0, 2], [1, 0]]]
+    A3 = ["dense", "f64", 3, 2, [[-12, 9], [12, 16], [0, 0]]]
+    B2 = ["dense", "f64", 2, 2, [[0, 2], [5, 0]]]
+    sv = [{"fn": "svd", "op": A3, "k": 2, "which": "LM", "alg": "dense", "wrapper": "witness"},
+          {"fn": "svd", "op": A2, "k": 2, "which": "LM", "alg": "lanczos", "wrapper": "witness"},
+          {"fn": "svd", "op": A2, "k": 1, "which": "LM", "alg": "lanczos", "wrapper": "witness"},
+          {"fn": "svd", "op": A2, "k": 1, "which": "SM", "alg": "lanczos", "wrapper": "witness"},
+          {"fn": "svd", "op": B2, "k": 1, "which": "LM", "alg": "lanczos", "max_iters": 1, "wrapper": "witness"}]
+    pv = [{"fn": "pinv", "op": A3, "alg": alg, "wrapper": "witness", "rhs_seed": 16} for alg in ("lstsq", "cg", "omitted")]
+    return sv, pv
 
 
 def lobpcg_cases(ctx, rng, g):
